@@ -47,3 +47,24 @@ def enum_variants(v):
 
 def describe_val(v):
     return repr(v)[:200]
+
+
+def only_called_under(prog, body, root_names, _seen=None):
+    """True when every call chain that reaches `body` (a fn, or the fn a closure belongs to) passes through one of the functions named in
+    `root_names` first — i.e. `body` is a private helper of those functions (the roots themselves qualify trivially)"""
+    import mirlib
+    fn = prog.function_root(body) or body
+    if fn.name in root_names:
+        return True
+    seen = _seen if _seen is not None else set()
+    if fn.key in seen:
+        return True          # a cycle adds no new entry
+    seen.add(fn.key)
+    callers = []
+    for (b, bb, t) in prog.callers_of(fn.path):
+        callers.append(prog.function_root(b) or b)
+    if not callers:
+        return False         # an entry point of its own (public API or unused): not confined to the roots
+    if fn.vis == "public" or fn.vis == "pub":
+        return False
+    return all(only_called_under(prog, cb, root_names, seen) for cb in callers)
